@@ -753,3 +753,89 @@ func ruleValFetch(p *Prog, r *Report) {
 		r.OK("VALFETCH", keyR, atR, "fastRead(int(t.Size())) on the current tag")
 	}
 }
+
+// ---- ROUTE: every decoded directory entry reaches the value dispatch -----------------------------------------
+
+// ruleRoute: in exif2.(*ifdReader).readIfdHeader every entry that tagFromBuffer decoded without error passes, on
+// every path to the next iteration, either parseTag (value embedded in the entry) or addTagBuffer (value out of
+// line, parsed when the stream reaches it). A path that skips both drops a tag before the dispatch table that
+// DISPATCH checks is ever consulted.
+func ruleRoute(p *Prog, r *Report) {
+	f := p.Func("exif2", "*ifdReader", "readIfdHeader")
+	key := "exif2.(*ifdReader).readIfdHeader | every decoded entry reaches parseTag or addTagBuffer"
+	if f == nil {
+		r.Undecided("ROUTE", key, "-", "unresolved anchor")
+		return
+	}
+	var dec *ssa.Call
+	sink := map[*ssa.BasicBlock]bool{}
+	nSink := 0
+	eachCall(f, func(site ssa.CallInstruction) {
+		sc := site.Common().StaticCallee()
+		if sc == nil {
+			return
+		}
+		switch sc.Name() {
+		case "tagFromBuffer":
+			if c, ok := site.(*ssa.Call); ok {
+				dec = c
+			}
+		case "parseTag", "addTagBuffer":
+			sink[site.Block()] = true
+			nSink++
+		}
+	})
+	if dec == nil || nSink == 0 {
+		r.Undecided("ROUTE", key, p.posStr(f.Pos()), "tagFromBuffer / parseTag / addTagBuffer calls not found")
+		return
+	}
+	at := p.posStr(instrPos(dec))
+	var loop *Loop
+	for _, l := range findLoops(f) {
+		if l.Blocks[dec.Block()] && (loop == nil || len(l.Blocks) < len(loop.Blocks)) {
+			loop = l
+		}
+	}
+	if loop == nil {
+		r.Undecided("ROUTE", key, at, "the entry loop was not found")
+		return
+	}
+	// the nil-error successor of the test on tagFromBuffer's error
+	blk := dec.Block()
+	ifi, ok := blk.Instrs[len(blk.Instrs)-1].(*ssa.If)
+	if !ok {
+		r.Undecided("ROUTE", key, at, "no error test after tagFromBuffer")
+		return
+	}
+	isErr, nilIdx := errBranch(ifi)
+	if !isErr {
+		r.Undecided("ROUTE", key, at, "the test after tagFromBuffer is not an error test")
+		return
+	}
+	start := blk.Succs[nilIdx]
+	seen := map[*ssa.BasicBlock]bool{start: true}
+	st := []*ssa.BasicBlock{start}
+	escaped := ""
+	if sink[start] {
+		st = nil
+	}
+	for len(st) > 0 && escaped == "" {
+		b := st[len(st)-1]
+		st = st[:len(st)-1]
+		for _, s := range b.Succs {
+			if s == loop.Head || !loop.Blocks[s] {
+				escaped = fmt.Sprintf("the path through block %q (ending at %s) reaches the next entry", b.Comment, p.posStr(instrPos(b.Instrs[len(b.Instrs)-1])))
+				break
+			}
+			if !seen[s] && !sink[s] {
+				seen[s] = true
+				st = append(st, s)
+			}
+		}
+	}
+	if escaped != "" {
+		r.Bad("ROUTE", key, at, escaped+" without parseTag or addTagBuffer: some entries are dropped before the dispatch")
+	} else {
+		r.OK("ROUTE", key, at, fmt.Sprintf("%d sinks; every path from the decoded entry to the next iteration passes one", nSink))
+	}
+}
